@@ -766,6 +766,16 @@ func (fx *FuncCtx) heapGet(st *State, name string, sort Sort) Term {
 	}
 	t := fx.declConst(name, sort)
 	st.heap[name] = t
+	if strings.HasSuffix(name, ".rid") && sort == ArraySort(SInt, SInt) {
+		// slices held by heap objects at function entry were made by the caller: their regions have
+		// non-negative identifiers (regions allocated during this call have negative ones). This is a
+		// fact about the objects that exist at entry (references below the allocation frontier alloc0)
+		// in the ENTRY heap only: after a store, a heap object may hold a local allocation, and the
+		// fields of an object allocated by a callee are read from the same array at a reference >= alloc0
+		// (assuming rid >= 0 at every load made such paths contradictory and their postconditions
+		// vacuous: reported by a contract-writing agent).
+		fx.globalFacts = append(fx.globalFacts, Term{fmt.Sprintf("(forall ((q_hrid Int)) (=> (< q_hrid alloc0) (>= (select %s q_hrid) 0)))", name), SBool})
+	}
 	return t
 }
 
@@ -1092,7 +1102,7 @@ func (fx *FuncCtx) loadHeap(st *State, prefix string, ref Term, t types.Type) Va
 		if fx.inQuant > 0 {
 			return sv
 		}
-		st.assume(And(Ge(sv.Rid, IntLit(0)), Ge(sv.Off, IntLit(0)), Ge(sv.Len, IntLit(0)), Le(sv.Len, sv.Cap), Lt(sv.Cap, capBound(u.Elem())), Implies(Eq(sv.Rid, IntLit(0)), Eq(sv.Cap, IntLit(0)))))
+		st.assume(And(Ge(sv.Off, IntLit(0)), Ge(sv.Len, IntLit(0)), Le(sv.Len, sv.Cap), Lt(sv.Cap, capBound(u.Elem())), Implies(Eq(sv.Rid, IntLit(0)), Eq(sv.Cap, IntLit(0)))))
 		return sv
 	case *types.Array:
 		es := fx.elemSort(u.Elem())
